@@ -401,7 +401,8 @@ def event_time_release(ctx):
         if d is None:
             raise Inconclusive('partition_point closure of EventTimeWindowManager is not a single comparison')
         # the slot-side operand is the one that mentions the closure's slot parameter
-        rel, a, b = cmp_rel_of(d, lambda x: 'arg' not in x.split('.')[0] and ('w.' in x or 'w)' in x or x.startswith('*w') or x.startswith('w')))
+        import re as _re
+        rel, a, b = cmp_rel_of(d, lambda x: bool(_re.match(r'^[*&(]*arg\d', x)))      # rooted at the closure's own (slot) parameter
         if rel is None:
             rel, a, b = cmp_rel_of(d, lambda x: x.endswith('.end'))
         if rel is not None and neg:
